@@ -28,7 +28,8 @@ RULE = ("cases: (rows, V placement, family, scaling); executions: units x units 
         "outside and on nodes")
 ASSUMPTIONS = ["tables are increasing in wavelength and cover 0.55 micron (the property's precondition)",
                "opacities from finite families (constant, power law, non-monotonic, seed-derived positive)"]
-REQUIRED_CLASSES = ['V-between', 'V-on-node', 'V-first', 'V-last', 'outside-zero', 'exact-at-V', 'pickle', 'table', 'file',
+OPS = ['scale-chi', 'chi-unit', 'wav-unit', 'new-chi', 'pickle', 'new-table']
+REQUIRED_CLASSES = ['history-depth-3', 'history-new-chi-after-query', 'V-between', 'V-on-node', 'V-first', 'V-last', 'outside-zero', 'exact-at-V', 'pickle', 'table', 'file',
                     'unit-change', 'scaled', 'non-monotonic']
 
 
@@ -39,6 +40,12 @@ def setup(tier, seed):
         if r == 2 and vpos == 'node':
             continue
         cases_.append({'rows': r, 'vpos': vpos, 'fam': fam, 'sc': sc})
+    # histories on ONE Extinction object (E2): every sequence of up to 3 (quick) / 4 (thorough) state-changing
+    # operations, get_av compared with the reference after every step
+    depth = 3 if tier == 'quick' else 4
+    for r, vpos, fam in itertools.product([3, 5], ['between', 'node', 'first'], [1, 2]):
+        for first_op in OPS:
+            cases_.append({'hist': True, 'rows': r, 'vpos': vpos, 'fam': fam, 'sc': 1.0, 'first_op': first_op, 'depth': depth})
     return {'tier': tier, 'seed': seed, 'cases': cases_}
 
 
@@ -47,7 +54,7 @@ def cases(ctx):
 
 
 def evidence_extra(ctx):
-    return {'bounds': 'rows {2,3,5,20,200} x V placement 4 x opacity family 4 x scaling 3 x wavelength unit 4 x opacity unit 2 x query unit 3(4) x form 3 + file reader column pairs',
+    return {'bounds': 'histories: all sequences of <=3 (quick) / <=4 (thorough) operations over 6 state-changing operations on one object; rows {2,3,5,20,200} x V placement 4 x opacity family 4 x scaling 3 x wavelength unit 4 x opacity unit 2 x query unit 3(4) x form 3 + file reader column pairs',
             'alphabet_digest': 'seed=%d' % ctx['seed']}
 
 
@@ -78,10 +85,84 @@ def _table(case, seed):
     return wt, ct
 
 
+def _history(ctx, case, rec):
+    """All operation sequences starting with case['first_op'] up to the depth bound on one live object."""
+    import copy
+    from astropy import units as u
+    from sedfitter.extinction import Extinction
+    from mc.canon import canon
+    wt0, ct0 = _table(case, ctx['seed'])
+    wt1, ct1 = _table(dict(case, rows=case['rows'] + 1, fam=3), ctx['seed'] + 1)
+
+    def apply(e, model, op):
+        wt, ct = model
+        if op == 'scale-chi':
+            e.chi = e.chi * 7.5
+            return e, (wt, ct * 7.5)
+        if op == 'chi-unit':
+            e.chi = e.chi.to(u.m ** 2 / u.kg if e.chi.unit == u.cm ** 2 / u.g else u.cm ** 2 / u.g)
+            return e, model
+        if op == 'wav-unit':
+            e.wav = e.wav.to(u.nm if e.wav.unit == u.micron else u.micron)
+            return e, model
+        if op == 'new-chi':
+            new = ct[::-1].copy() + 0.5
+            e.chi = new * e.chi.unit
+            return e, (wt, (new * e.chi.unit).to(u.cm ** 2 / u.g).value)
+        if op == 'pickle':
+            return pickle.loads(pickle.dumps(e, 2)), model
+        if op == 'new-table':
+            e.chi = None
+            e.wav = wt1 * u.micron
+            e.chi = ct1 * u.cm ** 2 / u.g
+            return e, (wt1, ct1)
+        raise ValueError(op)
+
+    seqs = [[case['first_op']] + list(t) for L in range(0, case['depth']) for t in itertools.product(OPS, repeat=L)]
+    seen = set()
+    for seq in seqs:
+        e = Extinction()
+        e.wav = wt0 * u.micron
+        e.chi = ct0 * u.cm ** 2 / u.g
+        model = (wt0, ct0)
+        # a query before any change, so that anything a changed implementation remembers is populated
+        e.get_av(np.array([0.55, 1.0]) * u.micron)
+        for step, op in enumerate(seq):
+            try:
+                e, model = apply(e, model, op)
+                wt, ct = model
+                q = np.r_[wt[0] * 0.5, wt[1:-1], (wt[:-1] + wt[1:]) / 2, wt[-1] * 2, 0.55]
+                r = np.asarray(e.get_av(q * u.micron), float)
+            except Exception as ex:
+                rec.violation('history|exception', {'seq': seq[:step + 1]}, {'type': type(ex).__name__, 'msg': str(ex)[:200]})
+                break
+            exp = np.array(extref.pattern(list(wt), list(ct), list(q)))
+            rec.ev()
+            rec.trans()
+            c = canon([e.wav, e.chi])
+            if c not in seen:
+                seen.add(c)
+                rec.state(('hist', case['rows'], case['vpos'], case['fam'], c))
+            rec.outcome(tuple(np.round(r, 6)))
+            if op == 'new-chi':
+                rec.cls('history-new-chi-after-query')
+            if not np.allclose(r, exp, rtol=1e-9, atol=1e-12):
+                i = int(np.argmax(np.abs(r - exp)))
+                rec.violation('history|get_av-after-%s' % op, {'seq': seq[:step + 1]}, {'query_micron': q[i], 'got': r[i], 'expected': exp[i], 'note': 'same object queried before the change'})
+                break
+        rec.trace()
+        rec.nontriv(('hist', case['rows'], case['vpos'], case['fam'], tuple(seq)))
+        if len(seq) >= 3:
+            rec.cls('history-depth-3')
+    rec.sample({'family': 'history', 'first_op': case['first_op'], 'n_sequences': len(seqs), 'ops': OPS, 'example': seqs[-1]})
+
+
 def run_case(ctx, case, rec, d):
     from astropy import units as u
     from sedfitter.extinction import Extinction
     tier = ctx['tier']
+    if case.get('hist'):
+        return _history(ctx, case, rec)
     wt, ct = _table(case, ctx['seed'])
     nodes = wt if len(wt) <= 20 else wt[::10]
     q = np.r_[wt[0] * 0.5, nodes, wt[:-1] + (wt[1:] - wt[:-1]) / 3, wt[:-1] + 2 * (wt[1:] - wt[:-1]) / 3, wt[-1] * 2, 0.55]
